@@ -15,7 +15,12 @@ import json, os, subprocess
 import vlib
 
 
-def run_scenarios(ctx, plan, label):
+def _limit_memory():
+    import resource
+    resource.setrlimit(resource.RLIMIT_AS, (8 << 30, 8 << 30))
+
+
+def run_scenarios(ctx, plan, label, mem_limit=False):
     """plan: list of (scenario, rounds, widen). Returns number of runs."""
     h = vlib.build_harness(ctx)
     runs = 0
@@ -32,7 +37,12 @@ def run_scenarios(ctx, plan, label):
         env = dict(vlib.GOENV)
         env["VERIF_HANG_DUMP"] = f"{ctx.work}/hang_{i}.txt"
         try:
-            rc, so, se = vlib.sh([h, "-i", opsf, "-o", outf], timeout=900, env=env)
+            if mem_limit:
+                # an allocation announced by a frame header (or any other runaway) ends the process
+                p = subprocess.run([h, "-i", opsf, "-o", outf], timeout=900, env=env, capture_output=True, text=True, errors="replace", preexec_fn=_limit_memory)
+                rc, so, se = p.returncode, p.stdout, p.stderr
+            else:
+                rc, so, se = vlib.sh([h, "-i", opsf, "-o", outf], timeout=900, env=env)
         except subprocess.TimeoutExpired:
             rc, se = -9, "TIMEOUT"
         res = open(outf).read().strip() if os.path.exists(outf) else ""
@@ -40,7 +50,8 @@ def run_scenarios(ctx, plan, label):
         ctx.cov["evaluations"] += 1
         ctx.cov["streams"].setdefault(label, []).append({"scenario": sc, "rounds": rounds, "widen_percent": widen, "seed": seed, "result": res[:200]})
         if not res.startswith("ok"):
-            why = res or f"harness exit {rc}: {se[-300:]}"
+            tail = [l for l in se.splitlines() if l.strip() and "Recovered error" not in l and "listen on" not in l]
+            why = res or f"the server process died (exit {rc}): " + " | ".join(tail[:6])[:600]
             stacks = ""
             if os.path.exists(env["VERIF_HANG_DUMP"]):
                 stacks = open(env["VERIF_HANG_DUMP"]).read()[:20000]
